@@ -10,6 +10,8 @@ pub mod c11;
 pub mod c13;
 pub mod c14;
 pub mod c15;
+pub mod c18;
+pub mod c19;
 pub mod c20;
 
 pub fn registry() -> Vec<PropertyDef> {
@@ -23,6 +25,8 @@ pub fn registry() -> Vec<PropertyDef> {
     PropertyDef { id: "C13", run: c13::run, replay: c13::replay },
     PropertyDef { id: "C14", run: c14::run, replay: c14::replay },
     PropertyDef { id: "C15", run: c15::run, replay: c15::replay },
+    PropertyDef { id: "C18", run: c18::run, replay: c18::replay },
+    PropertyDef { id: "C19", run: c19::run, replay: c19::replay },
     PropertyDef { id: "C20", run: c20::run, replay: c20::replay },
   ]
 }
